@@ -27,126 +27,45 @@ let show_list (l : desc list) = if l = [] then "-" else String.concat "," (List.
 let dash s = if s = "" then "-" else s
 let show_res = function ROk -> "ok" | RIdxDel -> "idxdel" | RErr -> "err"
 
-(* replay of a visible Merge schedule in the transition system; hidden steps
-   (receiving the main status, commit, complete, release) are inserted where the
-   real code performs them between two quiescent points *)
+(* a visible schedule (G<t> | P<t>:<f> | U<t>:<f> | D<t>:<f>) is replayed by the extracted
+   vis_summary (Model/Merge.v): the hidden lock regions are inserted there, not here *)
+let parse_vis (ev : string) : vis =
+  let rest = String.sub ev 1 (String.length ev - 1) in
+  match ev.[0] with
+  | 'G' -> VG (nat_of_int (int_of_string rest))
+  | k ->
+    let t, f = (match String.split_on_char ':' rest with
+                | [a; b] -> nat_of_int (int_of_string a), b = "1" | _ -> failwith "ev") in
+    (match k with 'P' -> VP (t, f) | 'U' -> VU (t, f) | 'D' -> VD (t, f) | _ -> failwith "ev")
+
+let show_results rs =
+  String.concat "," (List.mapi (fun t r ->
+    match r with Some r -> Printf.sprintf "%d=%s" t (show_res r) | None -> Printf.sprintf "%d=pending" t) rs)
+
+let tids l = String.concat "," (List.map (fun x -> string_of_int (int_of_nat x)) l)
+
 let run_m (n : int) (evs : string list) : string =
-  let st = ref (init None []) in
-  let rejected = ref (-1) in
-  let batches = ref [] in
-  let do_step i e =
-    if !rejected < 0 then
-      match step false !st e with Some s -> st := s | None -> rejected := i in
-  let closure i =
-    let progress = ref true in
-    while !progress && !rejected < 0 do
-      progress := false;
-      for t = 0 to n - 1 do
-        if !rejected < 0 then
-          match (!st).pcs (nat_of_int t) with
-          | Completing _ -> do_step i (EComplete (nat_of_int t)); progress := true
-          | Ret _ -> do_step i (EDone (nat_of_int t)); progress := true
-          | _ -> ()
-      done
-    done in
-  List.iteri (fun i ev ->
-    let kind = ev.[0] in
-    let rest = String.sub ev 1 (String.length ev - 1) in
-    (match kind with
-     | 'G' ->
-       let t = int_of_string rest in
-       do_step i (EGet (nat_of_int t, Add { dkey = n_of_int (t + 1); dart = N0; dpay = N0 }));
-       do_step i (EAssign (nat_of_int t))
-     | _ ->
-       let t, f = (match String.split_on_char ':' rest with
-                   | [a; b] -> int_of_string a, b = "1" | _ -> failwith "ev") in
-       let tn = nat_of_int t in
-       (match kind with
-        | 'P' ->
-          do_step i (ERecvMain tn);
-          do_step i (EPrepare (tn, f));
-          (match (!st).pcs tn with
-           | Prepared (Some _) when !rejected < 0 ->
-             let its = List.map (fun (x, _) -> string_of_int (int_of_nat x)) (!st).items in
-             batches := (Printf.sprintf "%d:%s" t (String.concat "," its)) :: !batches
-           | _ -> ());
-          do_step i (ECommit tn)
-        | 'U' -> do_step i (EPut (tn, f))
-        | 'D' -> do_step i (EDel (tn, f))
-        | _ -> failwith "ev"));
-    closure i) evs;
-  if !rejected >= 0 then Printf.sprintf "REJECT %d" !rejected
-  else begin
-    let res = List.init n (fun t ->
-      match (!st).pcs (nat_of_int t) with
-      | Done r -> Printf.sprintf "%d=%s" t (show_res r)
-      | _ -> Printf.sprintf "%d=pending" t) in
-    let keys = match (!st).reg with
-      | None -> []
-      | Some l -> List.sort compare (List.map (fun d -> int_of_n d.dkey - 1) l) in
-    Printf.sprintf "ACC B %s R %s I %s" (dash (String.concat ";" (List.rev !batches)))
-      (String.concat "," res) (dash (String.concat "," (List.map string_of_int keys)))
-  end
+  let changes = List.init n (fun t -> Add { dkey = n_of_int (t + 1); dart = N0; dpay = N0 }) in
+  match vis_summary false None changes (List.map parse_vis evs) with
+  | None -> "REJECT"
+  | Some ((rs, idx), log) ->
+    let batches = List.filter_map (function OBatch (m, ms) -> Some (Printf.sprintf "%d:%s" (int_of_nat m) (tids ms)) | _ -> None) log in
+    let keys = match idx with None -> [] | Some l -> List.sort compare (List.map (fun k -> int_of_n k - 1) l) in
+    Printf.sprintf "ACC B %s R %s I %s" (dash (String.concat ";" batches)) (show_results rs)
+      (dash (String.concat "," (List.map string_of_int keys)))
 
 (* X <skipgc> <init> <changes> <ev> ...: the exchanges of an end-to-end run on one
    referrers tag; caller i passes the i-th change *)
 let run_x (sg : bool) (init0 : string) (changes : change list) (evs : string list) : string =
-  let n = List.length changes in
   let r0 = if init0 = "none" then None else Some (List.map (fun k -> { dkey = n_of_int (int_of_string k); dart = N0; dpay = N0 })
                                                   (if init0 = "-" then [] else String.split_on_char ',' init0)) in
-  let st = ref (init r0 []) in
-  let rejected = ref (-1) in
-  let puts = ref [] in
-  let do_step i e =
-    if !rejected < 0 then
-      match step sg !st e with Some s -> st := s | None -> rejected := i in
-  let closure i =
-    let progress = ref true in
-    while !progress && !rejected < 0 do
-      progress := false;
-      for t = 0 to n - 1 do
-        if !rejected < 0 then
-          match (!st).pcs (nat_of_int t) with
-          | Completing _ -> do_step i (EComplete (nat_of_int t)); progress := true
-          | Ret _ -> do_step i (EDone (nat_of_int t)); progress := true
-          | _ -> ()
-      done
-    done in
-  List.iteri (fun i ev ->
-    let kind = ev.[0] in
-    let rest = String.sub ev 1 (String.length ev - 1) in
-    (match kind with
-     | 'G' ->
-       let t = int_of_string rest in
-       do_step i (EGet (nat_of_int t, List.nth changes t));
-       do_step i (EAssign (nat_of_int t))
-     | _ ->
-       let t, f = (match String.split_on_char ':' rest with
-                   | [a; b] -> int_of_string a, b = "1" | _ -> failwith "ev") in
-       let tn = nat_of_int t in
-       (match kind with
-        | 'P' -> do_step i (ERecvMain tn); do_step i (EPrepare (tn, f)); do_step i (ECommit tn)
-        | 'U' ->
-          (match (!st).pcs tn with
-           | NeedPut (nw, _) when !rejected < 0 ->
-             puts := (if nw = [] then "-" else String.concat "," (List.map (fun d -> string_of_int (int_of_n d.dkey)) nw)) :: !puts
-           | _ -> ());
-          do_step i (EPut (tn, f))
-        | 'D' -> do_step i (EDel (tn, f))
-        | _ -> failwith "ev"));
-    closure i) evs;
-  if !rejected >= 0 then Printf.sprintf "REJECT %d" !rejected
-  else begin
-    let res = List.init n (fun t ->
-      match (!st).pcs (nat_of_int t) with
-      | Done r -> Printf.sprintf "%d=%s" t (show_res r)
-      | _ -> Printf.sprintf "%d=pending" t) in
-    let idx = match (!st).reg with
-      | None -> "none"
-      | Some [] -> "-"
-      | Some l -> String.concat "," (List.map (fun d -> string_of_int (int_of_n d.dkey)) l) in
-    Printf.sprintf "ACC R %s I %s U %s" (String.concat "," res) idx (dash (String.concat ";" (List.rev !puts)))
-  end
+  match vis_summary sg r0 changes (List.map parse_vis evs) with
+  | None -> "REJECT"
+  | Some ((rs, idx), log) ->
+    let keys l = if l = [] then "-" else String.concat "," (List.map (fun k -> string_of_int (int_of_n k)) l) in
+    let puts = List.filter_map (function OPut (_, nw) -> Some (keys (List.map (fun d -> d.dkey) nw)) | _ -> None) log in
+    Printf.sprintf "ACC R %s I %s U %s" (show_results rs)
+      (match idx with None -> "none" | Some l -> keys l) (dash (String.concat ";" puts))
 
 let cap_num = function CapUnknown -> 0 | CapSupported -> 1 | CapUnsupported -> 2
 
